@@ -132,6 +132,8 @@ def strategy(tier):
 
     mx = 8 if tier == "quick" else 12
     return st.one_of(
+        G.gcc_problem(max_rows=12),
+        G.gcc_problem(max_rows=12, isothermal_utils=True),
         glide_ladder(tier),
         G.problem(min_streams=3, max_streams=mx, shape="mixed", max_hot=3, max_cold=3),
         G.problem(min_streams=4, max_streams=mx, shape="mixed", max_hot=3, max_cold=3, isothermal_utils=True),
